@@ -24,17 +24,17 @@ func TestMain(m *testing.M) { fw.Main(m) }
 // defect is fixed in /repo or listed in known_findings.jsonl.
 const (
 	// COUNT(*) OVER (...) always fails -> signature count_star_over_error
-	avoidKnownCountStarOver = true
+	avoidKnownCountStarOver = false
 	// LAST_VALUE applies the frame to the reversed partition (PRECEDING and
 	// FOLLOWING swap) -> signature last_value_frame_mirrored. Avoided by
 	// generating only symmetric frames for LAST_VALUE and, without a
 	// windowing clause, no IGNORE NULLS.
-	avoidKnownLastValueMirrored = true
+	avoidKnownLastValueMirrored = false
 	// NTH_VALUE returns the last examined value instead of NULL when the
 	// frame has fewer than n values -> signature nth_value_beyond_frame.
 	// Avoided by choosing n so that every frame has an n-th value (n = 1
 	// unless the frame is the whole partition).
-	avoidKnownNthValueBeyondFrame = true
+	avoidKnownNthValueBeyondFrame = false
 	// Aggregates / user aggregates OVER a frame that lies outside the
 	// partition by two or more rows for some row (e.g. ROWS BETWEEN 2
 	// FOLLOWING AND UNBOUNDED FOLLOWING on the last row, UNBOUNDED PRECEDING
@@ -42,7 +42,7 @@ const (
 	// in "[Fatal Error] makeslice: cap out of range"
 	// -> signature window_frame_negative_cap_panic. Avoided by shrinking the
 	// offending offset so that high - low + 1 >= 0 for every row.
-	avoidKnownFrameNegativeCapPanic = true
+	avoidKnownFrameNegativeCapPanic = false
 )
 
 // frameOffsets: the bounds as offsets from the current row (ok=false: unbounded).
